@@ -497,3 +497,46 @@ fn c19_policy_statement_matches_only_whom_and_what_it_names() {
     kani::cover!(!got && who && whereto && when, "statement for another action does not apply");
     std::mem::forget((st, ea, res, auth, now, me, my_group));
 }
+
+// lists of TWO names: "any of" must not become "all of" (added after seeded change C19-7, where a deny
+// naming two groups only reached members of both; with 0..1-element lists the two readings coincide)
+// @check id=C19 tier=quick cap=600 role=statement_matches_multi_name_lists
+// @fns governance::decision::EffectiveAuthority::statement_matches
+// @bound statement groups list of exactly two one-byte labels and principals list of 0 or 2 labels (symbolic); caller principal id symbolic, caller in 1..2 groups (symbolic labels); any action, any resource, no conditions
+// @stubs alloc::fmt::format -> String::new()
+#[kani::proof]
+#[kani::unwind(8)]
+#[kani::stub(alloc::fmt::format, fmt_stub)]
+fn c19_statement_naming_two_groups_reaches_members_of_either() {
+    let g = [lab(), lab()];
+    let two_principals: bool = kani::any();
+    let p = [lab(), lab()];
+    let st = PolicyStatement {
+        effect: "deny".to_string(),
+        principals: if two_principals { vec![p[0].clone(), p[1].clone()] } else { vec![] },
+        groups: vec![g[0].clone(), g[1].clone()],
+        ..Default::default()
+    };
+    let me = lab();
+    let mine = [lab(), lab()];
+    let in_two: bool = kani::any();
+    let mut principal = PrincipalRow::default();
+    principal.principal_id = me.clone();
+    principal.status = status::ACTIVE.to_string();
+    let my_groups = if in_two { vec![mine[0].clone(), mine[1].clone()] } else { vec![mine[0].clone()] };
+    let ea = EffectiveAuthority { space: SpaceRow::default(), principal, groups: my_groups, is_owner: false, policy: None, bindings: Vec::new(), statements: Vec::new(), candidates: Vec::new() };
+    let res = ResourceContext::default();
+    let mut auth = AuthContext::principal("p");
+    auth.auth_strength = String::new();
+    let now = instant();
+    let got = ea.statement_matches(&st, Permission::Read, &res, &auth, &now);
+    let b = |s: &String| s.as_bytes()[0];
+    let member = |x: u8| x == b(&mine[0]) || (in_two && x == b(&mine[1]));
+    let group_hit = member(b(&g[0])) || member(b(&g[1]));
+    let named = !two_principals || b(&p[0]) == b(&me) || b(&p[1]) == b(&me);
+    assert!(got == (group_hit && named), "a statement that lists several groups (principals) applies to a member of ANY listed group (to ANY listed principal)");
+    kani::cover!(got && !(member(b(&g[0])) && member(b(&g[1]))), "member of only one of the two listed groups is reached");
+    kani::cover!(got && two_principals && b(&p[0]) != b(&me), "second listed principal is reached");
+    kani::cover!(!got && named, "member of neither group is not reached");
+    std::mem::forget((st, ea, res, auth, now, me, g, p, mine));
+}
